@@ -6,7 +6,7 @@ from props import pyref
 class P(StreamProperty):
     pid = 'C03'
     module = 'OpenFecVerif.Props.C03'
-    theorems = ['C03_elimCol_preserves', 'C03_triangularize_sound', 'C03_finish_outcome_is_order_free']
+    theorems = ['C03_success_is_rank_test', 'C03_outcome_payload_free']
     rule = ('LDPC decoder sessions followed by of_finish_decoding: all 2^n receive sets for n<=nmax over a grid (k 1..8, r 3..8, N1 3..5, several seeds), '
             'each in increasing / shuffled order and through both APIs, plus sampled blocks (k up to 600 quick / 5000 thorough) with loss rates around the threshold; '
             'oracle (independent of the model): completion after finish <=> the GF(2) rank condition "unknown columns of H have full column rank", computed in Python '
@@ -87,7 +87,7 @@ class P(StreamProperty):
                     for sd in seeds:
                         cfg = gens.Cfg('ldpc', k, r, N1=N1, seed=sd)
                         for sub in gens.subsets(cfg.n):
-                            if tier == 'quick' and cfg.n >= 9 and rng.random() < 0.75: continue
+                            if tier == 'quick' and cfg.n >= 8 and rng.random() < (0.7 if cfg.n == 8 else 0.9): continue
                             order = list(sub)
                             if i % 3 == 1: rng.shuffle(order)
                             cases.append(self.mk('s%d' % i, cfg, order, 'stream' if i % 2 == 0 else 'table')); i += 1
